@@ -291,9 +291,11 @@ func (e *Env) tr(x CExpr) Val {
 		for i, p := range n.Params {
 			c.vars[p] = vals[i]
 		}
-		// the body of a spec function sees only its parameters
+		// the body of a spec function sees only its parameters (and, if it reads the heap, the caller's heap)
 		c.fr = nil
-		c.st = nil
+		if !n.Heap {
+			c.st = nil
+		}
 		return c.tr(n.Body)
 	}
 	cfail("unsupported contract expression %T", x)
@@ -526,6 +528,10 @@ func (e *Env) field(n *CField) Val {
 				return e.mkHeap(e.w.heapLoad(e.st, a, ft), ft)
 			}
 		}
+		if gf := e.w.ghostField(pt.Elem(), n.Name); gf != nil {
+			a := app("fld", xv.S, fmt.Sprint(gf.Tag))
+			return e.mkHeap(e.w.heapLoad(e.st, a, gf.T), gf.T)
+		}
 		cfail("no field %s", n.Name)
 	}
 	if st, ok := t.Underlying().(*types.Struct); ok {
@@ -610,9 +616,11 @@ func (e *Env) index(n *CIndex) Val {
 		return e.mkHeap(e.w.heapLoad(e.st, app("selem", xv.S, i), st.Elem()), st.Elem())
 	case "Addr":
 		if mt, ok := xv.T.Underlying().(*types.Map); ok {
+			// Go semantics: the zero value for a missing key (or a nil map)
 			k := e.tr(n.I)
-			_, val := e.x.mapComps(e.st, mt)
-			return e.mk(app("select", app("select", val, xv.S), k.S), mt.Elem())
+			dom, val := e.x.mapComps(e.st, mt)
+			has := sand(snot(app("=", xv.S, "anil")), app("select", app("select", dom, xv.S), k.S))
+			return e.mk(site(has, app("select", app("select", val, xv.S), k.S), e.w.zero(mt.Elem())), mt.Elem())
 		}
 	}
 	if strings.HasPrefix(xv.Sort, "(Array Int") {
@@ -841,7 +849,7 @@ func (w *World) expandGoal(e CExpr, depth int) []CExpr {
 			return out
 		}
 	case *CCall:
-		if sf, ok := w.specs[n.Fun]; ok && depth < 3 && sf.Body != nil && !sf.Heap && sf.Result == "bool" && !mentionsCall(sf.Body, sf.Name) && len(n.Args) == len(sf.Params) {
+		if sf, ok := w.specs[n.Fun]; ok && depth < 3 && sf.Body != nil && sf.Result == "bool" && !mentionsCall(sf.Body, sf.Name) && len(n.Args) == len(sf.Params) {
 			parts := w.expandGoal(sf.Body, depth+1)
 			if len(parts) == 1 {
 				return []CExpr{e}
@@ -852,7 +860,7 @@ func (w *World) expandGoal(e CExpr, depth int) []CExpr {
 			}
 			var out []CExpr
 			for _, p := range parts {
-				out = append(out, &CApply{Params: ps, Args: n.Args, Body: p})
+				out = append(out, &CApply{Params: ps, Args: n.Args, Body: p, Heap: sf.Heap})
 			}
 			return out
 		}
@@ -863,7 +871,7 @@ func (w *World) expandGoal(e CExpr, depth int) []CExpr {
 		}
 		var out []CExpr
 		for _, p := range parts {
-			out = append(out, &CApply{Params: n.Params, Args: n.Args, Body: p})
+			out = append(out, &CApply{Params: n.Params, Args: n.Args, Body: p, Heap: n.Heap})
 		}
 		return out
 	}
